@@ -90,6 +90,11 @@ var dagCheck = &core.Check{Name: "c02/dag", Quick: 2500, Thorough: 200000, Fn: f
 	}
 	data := ref.SerializeBOC([]*ref.RCell{root}, variant)
 	c.Note("boc", hex.EncodeToString(data))
+	if c.Intn("refusedFirst", 5) == 0 {
+		// a refused operation (over-deep tree, broken checksum) just before must not change these hashes
+		gen.RefuseFirst(c.Intn("refusedFirst.extra", 4))
+		c.Class("after a refused operation")
+	}
 	roots, err := boc.DeserializeBoc(data)
 	if err != nil {
 		return fmt.Errorf("DeserializeBoc of a reference-serialised well-formed bag: %v", err)
@@ -466,6 +471,60 @@ var proverCheck = &core.Check{Name: "c02/prover", Quick: 1500, Thorough: 100000,
 	}
 	if len(paths) > 0 {
 		c.NonTrivial(rr[0].ReprHash())
+	}
+	// a proof of the proof: the body just parsed already holds pruned branches; pruning it again - at
+	// positions that are pruned branches already, above them, or elsewhere - still commits to the same tree
+	if len(paths) == 0 || !c.Bool("again") {
+		return nil
+	}
+	body, rbody := tt[0].Refs()[0], rr[0].Refs[0]
+	prover2, err := boc.NewMerkleProver(body)
+	if err != nil {
+		return fmt.Errorf("NewMerkleProver on the body of a proof: %v", err)
+	}
+	cur2 := prover2.Cursor()
+	var paths2 [][]int
+	onPruned := false
+	for i, n2 := 0, 1+c.Intn("prunes2", 3); i < n2; i++ {
+		x, rx := cur2, rbody
+		var path []int
+		for d := c.Intn("plen2", 5); d >= 0 && len(rx.Refs) > 0; d-- {
+			k := c.Intn("pref2", len(rx.Refs))
+			x, rx = x.Ref(k), rx.Refs[k]
+			path = append(path, k)
+		}
+		if len(path) == 0 {
+			continue
+		}
+		onPruned = onPruned || rx.Type() == ref.TypePruned
+		x.Prune()
+		paths2 = append(paths2, path)
+	}
+	c.Note("prune_paths_2", paths2)
+	data2, err := prover2.CreateProof(cur2)
+	if err != nil {
+		return fmt.Errorf("CreateProof over the body of a proof (paths %v): %v", paths2, err)
+	}
+	rr2, err := ref.ParseBOC(data2)
+	if err != nil {
+		return fmt.Errorf("reference parser rejects the second proof: %v", err)
+	}
+	if len(rr2) != 1 || rr2[0].Type() != ref.TypeMerkleProof || rr2[0].WellFormed() != nil {
+		return fmt.Errorf("second proof (paths %v) is not a well-formed Merkle proof cell", paths2)
+	}
+	if !bytes.Equal(rr2[0].Refs[0].Hash(0), root.ReprHash()) {
+		return fmt.Errorf("second proof (paths %v): level-0 hash of the pruned tree %x differs from the original root hash %x", paths2, rr2[0].Refs[0].Hash(0), root.ReprHash())
+	}
+	tt2, err := boc.DeserializeBoc(data2)
+	if err != nil {
+		return err
+	}
+	if err := gen.Pairs(tt2[0], rr2[0], func(t *boc.Cell, r *ref.RCell) error { return hashAllWays(t, r, reused) }); err != nil {
+		return fmt.Errorf("cells of the second proof: %v", err)
+	}
+	c.Class("proof of a proof")
+	if onPruned {
+		c.Class("pruned a position that held a pruned branch")
 	}
 	return nil
 }}
